@@ -748,7 +748,8 @@ type c38Checker struct {
 	// sessions known to be stuck (each already reported as a hang): not reported again
 	allowOpen int
 	// client-connection slots per namespace (white-box: StatisticManager.clientConnecions) when only the canary is connected
-	slots map[string]int32
+	slots   map[string]int32
+	ns3Dead bool
 }
 
 // connSlots reads the per-namespace client connection counters the handshake checks against max_client_connections.
@@ -846,11 +847,12 @@ func (k *c38Checker) check(fresh bool) []string {
 			k.allowOpen = k.r.activeSessions() - 1
 		}
 	}
-	if fresh {
+	if fresh && !k.ns3Dead {
 		// the namespace with a small max_client_connections must still admit a client
 		c, err := k.r.Dial("ns3_rw", "pw_rw", "db")
 		if err != nil {
 			bad = append(bad, fmt.Sprintf("accept-dead: a new client of the namespace with max_client_connections=%d cannot log in although no other client of it is connected: %v", c38SmallMaxConns, err))
+			k.ns3Dead = true // report once
 		} else {
 			c.Quit()
 			k.sessionsGone()
